@@ -53,7 +53,7 @@ def load_known_findings():
 
 # --------------------------------------------------------------------------- extraction
 
-VX_KEYS = ("id", "file", "path", "spec", "ret_name", "keep_fields", "extra_fields", "keep_derives",
+VX_KEYS = ("id", "file", "path", "spec", "ret_name", "keep_fields", "keep_variants", "extra_fields", "keep_derives",
            "rules", "rename", "slice", "keep_vis", "any_expr", "rename_calls", "erase_async", "add_attrs")
 
 
